@@ -12,6 +12,7 @@ CONSTANTS MaxPending,  \* max unsynchronised operations per replica
           MaxSyncs,    \* total budget of sync calls
           MaxLen,      \* schedule length at which a simulated behaviour is emitted
           Urg,         \* urgencies the server may answer (subset of Urgencies)
+          EditKinds,   \* kinds of operations local edits may use (subset of {"C","D","U","P"})
           Emit         \* TRUE: print one REPLAY line per finished behaviour
 
 VARIABLES edits, syncs, h
@@ -20,10 +21,11 @@ View == <<vars, edits>>          \* h and the sync counter are observation only
 
 
 ValidOps(ts) ==
-  {C(u) : u \in {x \in Tasks : ~ts[x].ex}}
-  \cup {D(u, ts[u].m) : u \in {x \in Tasks : ts[x].ex}}
-  \cup {U(u, p, v, t, ts[u].m[p]) : u \in {x \in Tasks : ts[x].ex}, p \in Props,
-                                   v \in ValsN, t \in Times}
+  {o \in {C(u) : u \in {x \in Tasks : ~ts[x].ex}}
+         \cup {D(u, ts[u].m) : u \in {x \in Tasks : ts[x].ex}}
+         \cup {U(u, p, v, t, ts[u].m[p]) : u \in {x \in Tasks : ts[x].ex}, p \in Props,
+                                          v \in ValsN, t \in Times}
+         \cup {UndoPoint} : o.k \in EditKinds}
 
 Ev(a, r) == [a |-> a, r |-> r, ops |-> <<>>, urg |-> "-"]
 
@@ -88,7 +90,8 @@ WithOld(ts, os) ==
 
 GenAlphabet(r) == {U(u, p, ValOf[r], t, NoVal) : u \in Tasks, p \in Props, t \in Times}
                   \cup {D(u, EmptyMap) : u \in Tasks}
-ValidSeq(os) == \A i \in 1..Len(os) : \A j \in 1..(i-1) : ~(os[j].k = "D" /\ os[j].u = os[i].u)
+ValidSeq(os) == \A i \in 1..Len(os) : \A j \in 1..(i-1) :
+                  os[j] # os[i] /\ ~(os[j].k = "D" /\ os[j].u = os[i].u)
 GenSeqs(r) == {os \in SeqsUpTo(GenAlphabet(r), MaxPending) : ValidSeq(os)}
 CONSTANT MaxLong   \* at most this many replicas hold more than one operation
 PInit ==
@@ -111,12 +114,6 @@ PInit ==
 Done == \/ AllIdle /\ ((Quiescent /\ edits = MaxEdits) \/ syncs = MaxSyncs)
         \/ \E r \in Replicas : err[r]
         \/ Len(h) = MaxLen
-
-(* no operation is sent twice: in phased configurations every generated     *)
-(* operation is unique, so it occurs at most once in the stored chain       *)
-NoDuplicateSend ==
-  LET all == Flatten(chain)
-  IN \A i, j \in DOMAIN all : (i # j /\ all[i].k = "U") => all[i] # all[j]
 
 EmitReplay == (Emit /\ Done) => PrintT(<<"REPLAY", ToJson(h)>>)
 =============================================================================
